@@ -303,6 +303,7 @@ class FacadeUnit(Unit):
         dev = RecordingDevice(C.table(case["set"]), w, fails=case["fails"], fill=a.get("fill", 0), resp=a.get("resp"))
         self.dev = dev
         s = object.__new__(S)
+        self.scsi = s
         s.device = dev
         s._blocksize = a.get("blocksize", 0) if "blocksize" not in case.get("given", ()) else 0
         fixed, opts = self.optional_params(case)
@@ -501,10 +502,71 @@ class PRInRefusal(Unit):
             yield "canary:accepted-service-action-7", a.sa == 7
 
 
+class FacadeAgain(FacadeUnit):
+    """'each facade call ...' at any position of a history: the same method called a second time on the same SCSI
+    object with the same arguments sends one more command with the same CDB and returns in the same way"""
+
+    properties = ("C13", "C12")
+    frame_check = False
+
+    def __init__(self, method):
+        FacadeUnit.__init__(self, method)
+        self.name = "facade/" + method + ":again"
+
+    def cases(self, tier):
+        cs = [c for c in FacadeUnit.cases(self, tier) if not c.get("unspecified") and not c["fails"] and not c["given"]]
+        seen, out = set(), []
+        for c in cs:
+            k = c.get("sa")
+            if k not in seen:
+                seen.add(k)
+                out.append(c)
+        return out
+
+    def run(self, X, case, a):
+        self.first_trace = None  # (set once the first call has returned)
+        first = FacadeUnit.run(self, X, case, a)
+        s = self.scsi
+        self.first_trace = list(self.world.trace)
+        if X.symbolic:
+            second = X.call(getattr(s, self.method), **self.kw)
+        else:
+            with decoders_replaced(self.world):
+                second = X.call(getattr(s, self.method), **self.kw)
+        return first, second
+
+    def ensures(self, case, a, out, X):
+        # (a history property of the facade: reported under C13 and, for the data path, under C12)
+        for p, n, c in self._clauses(case, a, out, X):
+            yield "C13", n, c
+            yield "C12", n, c
+
+    def _clauses(self, case, a, out, X):
+        if out.kind != "return":
+            if self.first_trace is None:
+                # the first call was refused (e.g. no block size): nothing may have been sent
+                yield "C13", "refused-call-sends-nothing (%s)" % out.describe()[:70], not self.world.events("device.execute")
+            else:
+                yield "C13", "second-call-returns-like-the-first (%s)" % out.describe()[:70], False
+            return
+        n1 = len([t for t in self.first_trace if t[0] == "device.execute"])
+        execs = self.world.events("device.execute")
+        yield "C13", "second-call-sends-exactly-one-more-command", n1 == 1 and len(execs) == 2
+        if n1 == 1 and len(execs) == 2:
+            c1, c2 = execs[0][3], execs[1][3]
+            yield "C13", "second-call-sends-the-same-cdb", V.bytes_eq(c1, c2) if V.is_buffer(c1) and V.is_buffer(c2) else False
+            yield "C13", "second-call-returns-a-new-command-object", out.value[0] is not out.value[1]
+
+    def canaries(self, case, a, out, X):
+        return []
+
+
 def build_units():
     us = []
     for m in facade_methods():
         us.append(register(FacadeUnit(m)))
+        if FACADE.get(m) is not None:
+            us.append(register(FacadeAgain(m)))
     us.append(register(PRInRefusal()))
     return us
 
